@@ -1402,6 +1402,30 @@ class Builtins:
         it.assume_axiom(vals.key_axiom(x))
         return SV(V.NoneV), SV(V.SetV(z3.Store(V.selems(obj.t), vals.ks(x), z3.BoolVal(True))), obj.ty, obj.src)
 
+    def dm_remove(self, it, obj, a, k):
+        t = obj.t
+        kk = it.choose([V.is_ListV(t), V.is_SetV(t), z3.Not(z3.Or(V.is_ListV(t), V.is_SetV(t)))], '.remove()')
+        if kk == 2:
+            if it.feasible(V.is_ObjV(t)):
+                raise Unsupported('.remove() of object')
+            it.raise_('AttributeError')
+        x = it.refine(a[0].t)
+        if kk == 1:
+            it.assume_axiom(vals.key_axiom(x))
+            present = z3.And(vals.is_key(x), z3.Select(V.selems(t), vals.ks(x)))
+            self.world.ops.outcome(it, [(z3.Not(present), 'KeyError'), (present, None)], 'set.remove')
+            return SV(V.NoneV), SV(V.SetV(z3.Store(V.selems(t), vals.ks(x), z3.BoolVal(False))), obj.ty, obj.src)
+        # list.remove: raises ValueError exactly when `x in list` is false (the same formula as the `in` operator); otherwise one
+        # occurrence is removed (an over-approximation of "the first occurrence": sound for proving)
+        items = V.litems(t)
+        present = self.world.ops.contains(it, SV(t, obj.ty), a[0])
+        self.world.ops.outcome(it, [(z3.Not(present), 'ValueError'), (present, None)], 'list.remove')
+        idx = it.fresh('rmidx', z3.IntSort())
+        n = z3.Length(items)
+        it.assume(z3.And(0 <= idx, idx < n, O.pyeq(it.as_val(a[0]), items[idx])))
+        new = z3.Concat(z3.SubSeq(items, 0, idx), z3.SubSeq(items, idx + 1, n - idx - 1))
+        return SV(V.NoneV), SV(simp(V.ListV(new)), obj.ty, obj.src)
+
     def dm_discard(self, it, obj, a, k):
         self._need(it, obj, V.is_SetV, '.discard()')
         x = it.refine(a[0].t)
